@@ -672,7 +672,7 @@ func Select(a, i *Term) *Term {
 		if Same(cur.Args[1], i) {
 			return cur.Args[2]
 		}
-		if cur.Args[1].IsLit() && i.IsLit() { // distinct literals
+		if SurelyDistinct(cur.Args[1], i) {
 			cur = cur.Args[0]
 			continue
 		}
@@ -682,6 +682,51 @@ func Select(a, i *Term) *Term {
 		return cur.Args[0]
 	}
 	return mk("select", a.Sort.Rng, cur, i)
+}
+
+// intBaseOff splits an integer term into a base and a constant offset (t = base + off).
+func intBaseOff(t *Term) (*Term, *big.Int) {
+	off := new(big.Int)
+	for t.Op == "+" && len(t.Args) == 2 {
+		switch {
+		case t.Args[1].IsLit():
+			off.Add(off, t.Args[1].Val)
+			t = t.Args[0]
+		case t.Args[0].IsLit():
+			off.Add(off, t.Args[0].Val)
+			t = t.Args[1]
+		default:
+			return t, off
+		}
+	}
+	return t, off
+}
+
+// SurelyDistinct: a and b differ in every model, decided on their shape alone: different literals,
+// the same integer base with different offsets (references of successive allocations), references
+// of embedded objects (functions fa$<S>.<f>, injective with pairwise disjoint ranges by their axioms)
+// of different fields or of surely distinct parents.
+func SurelyDistinct(a, b *Term) bool {
+	if a == b || a.Sort != b.Sort {
+		return false
+	}
+	if a.IsLit() && b.IsLit() {
+		return !Same(a, b)
+	}
+	if a.Op == "app" && b.Op == "app" && strings.HasPrefix(a.Name, "fa$") && strings.HasPrefix(b.Name, "fa$") && len(a.Args) == 1 && len(b.Args) == 1 {
+		if a.Name != b.Name {
+			return true
+		}
+		return SurelyDistinct(a.Args[0], b.Args[0])
+	}
+	if a.Sort == Int {
+		ba, oa := intBaseOff(a)
+		bb, ob := intBaseOff(b)
+		if ba == bb && (ba != a || bb != b) && oa.Cmp(ob) != 0 {
+			return true
+		}
+	}
+	return false
 }
 
 func Store(a, i, v *Term) *Term {
@@ -713,6 +758,22 @@ func MkCtor(s *Sort, c *Ctor, args ...*Term) *Term {
 	for i, a := range args {
 		if a.Sort != c.Fields[i].Sort {
 			panic(fmt.Sprintf("smt.MkCtor %s field %s: sort %s want %s", c.Name, c.Fields[i].Name, a.Sort, c.Fields[i].Sort))
+		}
+	}
+	// eta: mk(f1(x), ..., fn(x)) is x when mk is the only constructor (a struct value that was taken
+	// apart field by field and put together again)
+	if len(s.Ctors) == 1 && len(args) > 0 {
+		var x *Term
+		same := true
+		for i, a := range args {
+			if a.Op != "acc" || a.Name != c.Fields[i].Name || a.Args[0].Sort != s || (x != nil && a.Args[0] != x) {
+				same = false
+				break
+			}
+			x = a.Args[0]
+		}
+		if same {
+			return x
 		}
 	}
 	return mkFull("ctor", s, c.Name, 0, 0, nil, args, nil, nil)
